@@ -6,7 +6,7 @@ import io
 
 from mc.checks import stream_corpus as SC
 from mc.checks import codec_matrix as CM
-from mc.core.runner import Result, pyasn1_site, exc_text
+from mc.core.runner import guarded, InternalError, Result, pyasn1_site, exc_text
 from mc.env import streams as ST
 from mc.model import x690 as M
 from mc.model import forms as F
@@ -108,7 +108,7 @@ def check_encoding(idx, name, form, T, v, e, tier, R):
                 # prefix-freeness: the reference parser must not see a complete TLV
                 try:
                     M.tlv_tree(prefix)
-                    raise RuntimeError('prefix of a valid encoding parses as complete: %s' % prefix.hex())
+                    raise InternalError('prefix of a valid encoding parses as complete: %s' % prefix.hex())
                 except M.ReadError:
                     pass
                 where = cut_location(e, k)
@@ -274,7 +274,7 @@ def shard(tier, i, n, seed):
         idx += 1
         if (idx + seed) % n != i:
             continue
-        check_encoding(idx, name, form, T, v, e, tier, R)
+        guarded(R, lambda: check_encoding(idx, name, form, T, v, e, tier, R), {'name': name, 'form': form, 'T': T, 'v': v, 'enc': e}, CM.type_features(T), idx)
         R.extra['encodings'] += 1
         if idx % 211 == seed % 211:
             R.sample({'name': name, 'form': form, 'encoding': e.hex(), 'cuts': len(e)})
